@@ -28,3 +28,17 @@ Print Assumptions C13_same_source.
 Theorem C13_key_eq : forall a b, gkey_eqb a b = true <-> a = b.
 Proof. exact gkey_eqb_eq. Qed.
 Print Assumptions C13_key_eq.
+
+(* ---- the key separates what the printed positions cannot (repairs of F56, F57; the key components are fed to the real
+   engine by the hook and compared on every run) ---- *)
+Theorem C13_same_key_same_sites : forall c c', c_nil c <> [] -> group_key c = group_key c' ->
+  map (fun n => pos_key (n_site n)) (c_nil c) = map (fun n => pos_key (n_site n)) (c_nil c').
+Proof. exact same_key_same_sites. Qed.
+Theorem C13_same_key_same_source : forall c c' p p', c_nil c = [] -> c_nonnil c = [p] -> pos_key (n_ppos p) = None ->
+  c_nil c' = [] -> c_nonnil c' = [p'] -> group_key c = group_key c' -> pos_key (c_src c) = pos_key (c_src c').
+Proof. exact same_key_same_source. Qed.
+Example C13_lookalike_files_not_grouped :
+  let n f := {| n_ppos := mkpos 2 3; n_cpos := mkpos 2 3; n_prepr := 7; n_crepr := 8; n_site := mkpos f 3 |} in
+  let c i f l := {| c_id := i; c_pos := mkpos 1 l; c_nil := [n f]; c_nonnil := [use_node l]; c_func := None; c_test := false; c_src := nopos |} in
+  gkey_eqb (group_key (c 1 2 10)) (group_key (c 2 3 11)) = false /\ gkey_eqb (group_key (c 1 2 10)) (group_key (c 3 2 12)) = true.
+Proof. exact lookalike_files_not_grouped. Qed.
